@@ -158,6 +158,23 @@ def main(argv):
                 json.dump({'property': prop, 'tag': tag, 'item': item, 'solver_message': r.get('cex_message'),
                            'how': f'./check --replay {path}'}, open(path, 'w'), indent=1)
                 violations.append((tag, path))
+        elif r.get('nondet'):
+            wl = [{k: v for k, v in w.items() if not k.startswith('_')} for w in (r.get('witnesses') or [])[:4]]
+            for k in (2, 3):
+                items = [{'module': r['module'], 'fn': r['fn'], 'pin': r.get('pin', {}), 'args': a, 'repeat': k} for a in wl]
+                tags = replay_items(items)
+                replays_done += len(items)
+                hit = [(it, t) for it, t in zip(items, tags) if t is not None and not str(t).startswith('ERR:') and t not in known_tags]
+                if hit:
+                    item, t2 = hit[0]
+                    tag = f'{t2}/only-on-run-{k}-in-one-interpreter:state-shared-between-separately-built-instances'
+                    h = hashlib.sha1(json.dumps(item, sort_keys=True).encode()).hexdigest()[:10]
+                    path = f'{ROOT}/replays/{prop}-{h}.json'
+                    os.makedirs(f'{ROOT}/replays', exist_ok=True)
+                    json.dump({'property': prop, 'tag': tag, 'item': item, 'solver_message': r.get('cex_message'),
+                               'how': f'./check --replay {path}'}, open(path, 'w'), indent=1)
+                    violations.append((tag, path))
+                    break
         elif r['status'] in ('VACUOUS', 'ERROR'):
             harness_errors.append(f"{r['shard']}: {r['status']} {str(r.get('error') or r.get('messages'))[-600:]}")
 
